@@ -52,10 +52,17 @@ CONFIGS = {
 CHUNK = 300
 
 
+def _isint(x):
+    return isinstance(x, int) and not isinstance(x, bool)
+
+
 def _vertex(rng, n):
     r = rng.random()
     if r < 0.80 and n >= 1:
         return rng.randint(1, n)
+    if r < 0.84:
+        # "arbitrary (valid or invalid) arguments": not even an integer
+        return rng.choice([1.0, 2.0, 2.5, 1.5, "1", None, float(n)])
     return rng.choice([0, -1, n + 1, n + 2, -n, 1])
 
 
@@ -289,8 +296,13 @@ def execute(case, ctx):
                     else:
                         bad("invalid-insertion-accepted",
                             "add_edge(%r,%r) did not raise" % (u, v))
-                elif not isinstance(r[1], ValueError):
+                elif not isinstance(r[1], ValueError) and not (
+                        isinstance(r[1], TypeError) and not (
+                            _isint(u) and _isint(v))):
+                    # (a TypeError is a fair refusal of a non-integer)
                     bad_exc("invalid-insertion-wrong-error", r[1])
+                if not (_isint(u) and _isint(v)):
+                    ctx.fault("non_integer_vertex")
         elif kind == "add_edges_from":
             es = [tuple(e) for e in op["edges"]]
             form = op.get("form", "list")
@@ -326,13 +338,18 @@ def execute(case, ctx):
                     else:
                         bad("invalid-insertion-accepted",
                             "add_edges_from(%r) did not raise" % (es,))
-                elif not isinstance(r[1], ValueError):
+                elif not isinstance(r[1], ValueError) and not (
+                        isinstance(r[1], TypeError) and not (
+                            _isint(u) and _isint(v))):
                     bad_exc("invalid-insertion-wrong-error", r[1])
         elif kind == "remove_edge":
             u, v = op["u"], op["v"]
             r = call(G.remove_edge, u, v)
             if r[0] == "exc":
-                if ref.valid(u, v) or not isinstance(r[1], ValueError):
+                if ref.valid(u, v) or not (
+                        isinstance(r[1], ValueError) or (
+                            isinstance(r[1], TypeError) and not (
+                                _isint(u) and _isint(v)))):
                     bad_exc("remove_edge", r[1])
             if ref.valid(u, v) and ref.has(u, v):
                 ref.remove(u, v)
